@@ -104,11 +104,15 @@ CLAIMS = {
                 "returns no value or a complete value the writer wrote; never an error, never a partial number), C20_reader_monotone, "
                 "C20_monotone (the published peak never decreases, never disappears), C20_writes_increasing; C20_unfixed_witness(_wrong): "
                 "the truncate-in-place protocol of the pinned code does fail. Invariant proof over an inode-level file-system model. "
-                "Correspondence: real monitor loop and real reader as gated threads on real files, all merges for 1-3 samples x up to two readers.",
+                "Correspondence: real monitor loop and real reader as gated threads on real files, all merges for 1-3 samples x up to two readers."
+                + GEN.format(src="the body of the `while True:` loop of _memory.monitor_rss_process and the initial maximum (file effects open / write / "
+                                 "flush / fsync / close / os.replace recorded as tokens; total_rss(), the clock and _BYTES_TO_GIB are inputs; theorems "
+                                 "C20_code_writer: iterated over any finite sample sequence its effects on max-rss.txt / max-rss.txt.tmp ARE the model's "
+                                 "writerOps .rename, C20_code_reader: hence C20_reader holds for the code's writer, C20_code_keep; BBProofs/GenEq7.lean)", prop="C20"),
         "note": TB + "PARTIAL: atomicity of rename(2), of a single small write(2) and of open(O_TRUNC) are assumptions about the kernel; the model "
                 "conservatively also allows a partially written temporary file. 'Monitoring on/off does not change clustering output' is "
                 "exercised by the CLI suite (C15), not proved.",
-        "technique": "Lean 4 invariant proof over protocol model + gated-thread schedule enumeration",
+        "technique": TGEN + " (gated-thread schedule enumeration)",
     },
     "C07": {
         "text": "The model with refPolicy is the executable specification; C07_route (descent to the most similar cached centroid, first "
